@@ -1,11 +1,14 @@
 (* Props/C10.v — "Block builders emit exactly the accepted bundles within the cost limit": statements only.
    Mirrors: Bundle/Builder.v.  [checked_cfg] = the overflow-checking build, [release_cfg] = the release build
-   (wrap-around).  "~ In RPanic rs" = no u64 sum overflowed during the history: the hypothesis the proofs force and
-   the code does not check for the declared costs (see C10_*_overflow_refuted for what happens otherwise). *)
+   (wrap-around).  "~ In RPanic rs" = no u64 sum overflowed during the history.  Since the fix "block builders reject a
+   declared cost above the block limit before summing" this holds for EVERY history, whatever the declared costs
+   (C10_interned_never_overflows / C10_compressed_never_overflows; the remaining hypotheses there are about data SIZES
+   near 2^64 / cost_per_byte bytes, a limit below 2^63 and fewer than 2^32 calls).  The C10_prefix_* theorems document
+   what the code did BEFORE the fix (pre-fix definitions i_step_prefix / c_step_prefix). *)
 From ChiaV.Base Require Import Bytes.
 From ChiaV.Clvm Require Import Sexp Ints.
 From ChiaV.Gen Require Import Builder.
-From ChiaV.Bundle Require Import SolutionGen Interned Builder BuilderExec InternedProofs BuilderProofs BuilderRefuted.
+From ChiaV.Bundle Require Import SolutionGen Interned Builder BuilderExec InternedProofs BuilderProofs BuilderTotal BuilderRefuted.
 Open Scope N_scope.
 
 (* the translated WRAPPER_VBYTES is the interned size of the wrapper (q . (() . ())) around an empty list *)
@@ -103,24 +106,58 @@ Theorem C10_serializer_ok_nonvacuous :
   @serializer_ok pser unit p_add p_restore p_size p_finish p_output (@fst _ _) node_from_bytes ([], O).
 Proof. exact serializer_ok_inhabited. Qed.
 
-(* what the faithful wrap-around model does when a declared cost makes a sum overflow (candidate finding F-C10-1):
-   release build: the attempt is accepted although its declared cost alone is above the limit, finalize returns 0 (interned)
-   resp. 60000 (compressed); overflow-checking build: add_spend_bundles panics *)
-Theorem C10_interned_overflow_refuted :
+(* no declared cost can make a sum overflow any more: no call of any history panics in the overflow-checking build.
+   Together with C10_interned_history / C10_compressed_history: all clauses hold for ALL declared costs. *)
+Theorem C10_interned_never_overflows : forall (Sig : Type) (sig_one : Sig) (sig_mul : Sig -> Sig -> Sig) (cpb maxc : N),
+  2 * maxc + I_MIN_COST_THRESHOLD < U64 ->
+  I_INITIAL_BLOCK_COST + WRAPPER_VBYTES * cpb <= maxc ->
+  forall h st rs,
+  Forall (i_fits Sig cpb maxc) h -> N.of_nat (length h) < U32 ->
+  run_hist (i_step Sig sig_one sig_mul (checked_cfg cpb maxc)) (i_init Sig sig_one) h = (st, rs) ->
+  ~ In RPanic rs.
+Proof. exact interned_history_total. Qed.
+
+Theorem C10_compressed_never_overflows : forall (Sig : Type) (sig_one : Sig) (sig_mul : Sig -> Sig -> Sig) (cpb maxc : N),
+  2 * maxc + C_MIN_COST_THRESHOLD < U64 ->
+  forall (sstate hint : Type) (s_add : sstate -> hint -> list sexp -> sstate) (s_restore : sstate -> sstate -> sstate)
+         (s_size : sstate -> N),
+  (forall s h l, s_size (s_restore (s_add s h l) s) = s_size s) ->
+  (forall s h l, s_size (s_add s h l) + C_CLOSING_BYTES < U64 /\
+                 (s_size (s_add s h l) + C_CLOSING_BYTES) * cpb + 2 * maxc < U64) ->
+  forall s0 : sstate,
+  C_INITIAL_BLOCK_COST + (s_size s0 + 2) * cpb <= maxc -> s_size s0 + 2 < U64 ->
+  forall h st rs,
+  N.of_nat (length h) < U32 ->
+  run_hist (c_step Sig sig_one sig_mul sstate hint s_add s_restore s_size (checked_cfg cpb maxc)) (c_init Sig sig_one sstate s0) h = (st, rs) ->
+  ~ In RPanic rs.
+Proof. exact compressed_history_total. Qed.
+
+(* DOCUMENTATION of the repaired finding F-C10-1, about the PRE-FIX step functions (i_run / c_run use i_step_prefix /
+   c_step_prefix): release build: the attempt was accepted although its declared cost alone is above the limit and finalize
+   returned 0 (interned) resp. 60000 (compressed); overflow-checking build: add_spend_bundles panicked *)
+Theorem C10_prefix_interned_overflow_refuted :
   snd (i_run Wrap i_witness) = [RAdded false] /\
   (exists g s, i_finalize xsig (real_cfg Wrap) (fst (i_run Wrap i_witness)) = IFOk xsig g s 0) /\
   c_max (real_cfg Wrap) < ia_cost xsig (hd {| ia_bundles := []; ia_cost := 0 |} i_witness) /\
   snd (i_run Checked i_witness) = [RPanic].
 Proof. exact interned_overflow_refuted. Qed.
 
-Theorem C10_compressed_overflow_refuted :
+Theorem C10_prefix_compressed_overflow_refuted :
   snd (c_run Wrap c_witness) = [RAdded false] /\
   (exists g s, c_finalize xsig xser x_size x_finish x_output (real_cfg Wrap) (fst (c_run Wrap c_witness)) = CFOk xsig g s 60000) /\
   c_max (real_cfg Wrap) < ca_cost xsig N (hd {| ca_bundles := []; ca_cost := 0; ca_hint := 0 |} c_witness) /\
   snd (c_run Checked c_witness) = [RPanic].
 Proof. exact compressed_overflow_refuted. Qed.
 
-(* the compressed builder's running estimate DOES underestimate before the first serialized add (candidate finding F-C10-2) *)
+(* the same two histories on the current code: rejected, nothing added, both builds *)
+Theorem C10_overflow_witnesses_now_rejected : forall m,
+  snd (run_hist (i_step xsig xsig_one xsig_mul (real_cfg m)) (i_init xsig xsig_one) i_witness) = [RRejected false] /\
+  ib_items xsig (fst (run_hist (i_step xsig xsig_one xsig_mul (real_cfg m)) (i_init xsig xsig_one) i_witness)) = [] /\
+  snd (run_hist (c_step xsig xsig_one xsig_mul xser N x_add x_restore x_size (real_cfg m)) (c_init xsig xsig_one xser x_init) c_witness)
+    = [RRejected false].
+Proof. exact overflow_witnesses_fixed_rejected. Qed.
+
+(* the compressed builder's running estimate DOES underestimate before the first serialized add (known finding F-C10-2) *)
 Theorem C10_compressed_initial_estimate_refuted :
   forall m, c_cost xsig xser (real_cfg m) (c_init xsig xsig_one xser x_init) = Some 20 /\
             exists g s, c_finalize xsig xser x_size x_finish x_output (real_cfg m) (c_init xsig xsig_one xser x_init) = CFOk xsig g s 60020.
